@@ -520,7 +520,7 @@ func (e *Engine) execSwitch(s *ast.SwitchStmt, st *State, label string) *State {
 		s1 := rest.clone()
 		s1.pc = and(rest.pc, c)
 		rest.pc = and(rest.pc, not(c))
-		if len(rest.pc) > 200 {
+		if len(rest.pc) > 200 && e.bound == 0 {
 			b := e.fresh("pc", "Bool")
 			e.assumes = append(e.assumes, eq(b, rest.pc))
 			rest.pc = b
@@ -707,6 +707,9 @@ func (e *Engine) modifiedIn(nodes ...ast.Node) *modset {
 			continue
 		}
 		ast.Inspect(n, func(n ast.Node) bool {
+			if st, ok := n.(ast.Stmt); ok && e.pk.Injected[st] {
+				return false // contract expressions injected for type checking are not code
+			}
 			switch s := n.(type) {
 			case *ast.AssignStmt:
 				for _, l := range s.Lhs {
@@ -1049,8 +1052,53 @@ func (e *Engine) checkInvariants(st *State, ls *LoopSpec, ord int, kind string, 
 		e.spec--
 		saved := e.prefix
 		e.prefix = saved + fmt.Sprintf("%s.%d.", kind, ord)
-		e.obligeNamed(st, fmt.Sprintf("%s.%d#%d", kind, ord, i), kind, v.T, p, fmt.Sprintf("loop %d invariant %q", ord, inv.Text), inv.Prop)
+		if kind == "inv-pres" && len(ls.caseTerms) > 0 && v.T != "true" {
+			// proof by cases (`cases` directive): one obligation per combination; together they are exhaustive
+			combos := []string{"true"}
+			labels := []string{""}
+			for d, dim := range ls.caseTerms {
+				var nc, nl []string
+				none := "true"
+				for _, t := range dim {
+					none = and(none, not(t))
+				}
+				for ci, base := range combos {
+					for k, t := range dim {
+						nc = append(nc, and(base, t))
+						nl = append(nl, fmt.Sprintf("%s.%d:%d", labels[ci], d, k))
+					}
+					nc = append(nc, and(base, none))
+					nl = append(nl, fmt.Sprintf("%s.%d:else", labels[ci], d))
+				}
+				combos, labels = nc, nl
+			}
+			for ci, cnd := range combos {
+				s2 := st.clone()
+				s2.pc = and(st.pc, cnd)
+				e.obligeNamed(s2, fmt.Sprintf("%s.%d#%d@case%s", kind, ord, i, labels[ci]), kind, v.T, p, fmt.Sprintf("loop %d invariant %q (case %s)", ord, inv.Text, labels[ci]), inv.Prop)
+			}
+		} else {
+			e.obligeNamed(st, fmt.Sprintf("%s.%d#%d", kind, ord, i), kind, v.T, p, fmt.Sprintf("loop %d invariant %q", ord, inv.Text), inv.Prop)
+		}
 		e.prefix = saved
+	}
+}
+
+// evalCases evaluates the `cases` conditions of a loop at the start of its body.
+func (e *Engine) evalCases(ls *LoopSpec, body *State) {
+	if ls == nil {
+		return
+	}
+	ls.caseTerms = nil
+	for _, dim := range ls.CaseDims {
+		var ts []string
+		for _, cl := range dim {
+			e.spec++
+			v := e.ev(cl.Expr, body)
+			e.spec--
+			ts = append(ts, e.nameTerm("case", "Bool", v.T))
+		}
+		ls.caseTerms = append(ls.caseTerms, ts)
 	}
 }
 
@@ -1122,9 +1170,19 @@ func (e *Engine) execFor(s *ast.ForStmt, st *State, label string) *State {
 	if ls != nil {
 		extra = ls.Modifies
 	}
+	if os.Getenv("GOVC_DEBUG_MODS") != "" {
+		var hs []string
+		for h := range m.heaps {
+			hs = append(hs, h)
+		}
+		fmt.Fprintf(os.Stderr, "loop %d mods: all=%v alloc=%v heaps=%v\n", ord, m.all, m.alloc, hs)
+	}
 	head := st.clone()
 	e.havocLoop(head, m, extra)
 	e.assumeInvariants(head, ls)
+	if ls != nil {
+		e.hints(head, ls.Hints)
+	}
 	cond := "true"
 	if s.Cond != nil {
 		cond = e.ev(s.Cond, head).T
@@ -1141,6 +1199,7 @@ func (e *Engine) execFor(s *ast.ForStmt, st *State, label string) *State {
 		e.spec--
 		v0 = e.nameTerm("variant", e.isort(), v0)
 	}
+	e.evalCases(ls, body)
 	lf := e.pushLoop(label, true)
 	end := e.execBlock(s.Body.List, body)
 	e.popLoop()
@@ -1169,6 +1228,9 @@ func (e *Engine) execFor(s *ast.ForStmt, st *State, label string) *State {
 		end = e.exec(s.Post, end)
 	}
 	if end != nil {
+		if ls != nil {
+			e.hints(end, ls.Hints)
+		}
 		e.checkInvariants(end, ls, ord, "inv-pres", s.Pos())
 		if v0 != "" {
 			e.spec++
@@ -1272,6 +1334,9 @@ func (e *Engine) execRange(s *ast.RangeStmt, st *State, label string) *State {
 		}
 	}
 	e.assumeInvariants(head, ls)
+	if ls != nil {
+		e.hints(head, ls.Hints)
+	}
 	cond := e.lt(hk, length)
 	body := head.clone()
 	body.pc = and(head.pc, cond)
@@ -1334,6 +1399,7 @@ func (e *Engine) execRange(s *ast.RangeStmt, st *State, label string) *State {
 			e.declVar(body, valObj, vv)
 		}
 	}
+	e.evalCases(ls, body)
 	lf := e.pushLoop(label, true)
 	end := e.execBlock(s.Body.List, body)
 	e.popLoop()
@@ -1341,6 +1407,9 @@ func (e *Engine) execRange(s *ast.RangeStmt, st *State, label string) *State {
 	if end != nil {
 		end.vars[hidden] = Value{e.nameTerm("k", e.isort(), next), it}
 		bindKey(end)
+		if ls != nil {
+			e.hints(end, ls.Hints)
+		}
 		e.checkInvariants(end, ls, ord, "inv-pres", s.Pos())
 		e.canary(end, fmt.Sprintf("loop%d-end", ord), s.Pos())
 	}
